@@ -14,7 +14,7 @@ ACCS = {
 class Gen:
     def __init__(self, rng: random.Random, n_accs=1, n_fields=3, max_depth=3, max_inv=6,
                  launch_vals=False, carried=True, effects=True, pre_threaded=False, chains=False,
-                 one_setup_per_loop_nest=False, acc_specs=None):
+                 one_setup_per_loop_nest=False, acc_specs=None, relaunch=True):
         self.rng = rng
         self.acc_specs = acc_specs
         if acc_specs:
@@ -35,6 +35,8 @@ class Gen:
         self.used_ext = set()
         self.one_setup_per_loop_nest = one_setup_per_loop_nest
         self.nest_used = None  # accelerators already invoked in the current outermost loop nest
+        self.last_vals = {}
+        self.relaunch = relaunch
 
     def fresh(self, p="x"):
         self.n += 1
@@ -70,9 +72,16 @@ class Gen:
             self.nest_used.add(acc)
         fs = self.fields[acc]
         vals = []
-        for f in fs:
-            p = pool + ivpool * 2 if ivpool else pool
-            vals.append(self.value(ind, p))
+        last = self.last_vals.get(acc)
+        if last is not None and self.rng.random() < 0.22 and all(v in pool or v in ivpool for v in last):
+            # an invocation that repeats the previous configuration of this accelerator completely: dedup removes the whole setup and the
+            # launch re-uses the earlier state (also from inside a nested region)
+            vals = list(last)
+        else:
+            for f in fs:
+                p = pool + ivpool * 2 if ivpool else pool
+                vals.append(self.value(ind, p))
+        self.last_vals[acc] = list(vals)
         s, t = self.fresh("s"), self.fresh("t")
         args = ", ".join(f'"{f}" = {v} : i32' for f, v in zip(fs, vals))
         self.emit(ind, f'{s} = accfg.setup "{acc}" to ({args}) : !accfg.state<"{acc}">')
@@ -89,6 +98,16 @@ class Gen:
             self.emit(ind, f'{t} = "accfg.launch"({s}) <{{param_names = [], accelerator = "{acc}"}}> : (!accfg.state<"{acc}">) -> !accfg.token<"{acc}">')
         self.emit(ind, f'"accfg.await"({t}) : (!accfg.token<"{acc}">) -> ()')
         self.inv += 1
+        if self.relaunch and not self.acc_specs and self.rng.random() < 0.15:
+            # the same configuration is launched again from inside a nested region that contains no setup (conditional / repeated re-launch)
+            t2 = self.fresh("t")
+            if self.rng.random() < 0.5:
+                self.emit(ind, f"scf.if {self.rng.choice(['%b0', '%b1'])} {{")
+            else:
+                self.emit(ind, f"scf.for {self.fresh('i')} = %c0 to {self.rng.choice(['%c2', '%n0', '%n0'])} step %c1 {{")
+            self.emit(ind + 1, f'{t2} = "accfg.launch"({s}) <{{param_names = [], accelerator = "{acc}"}}> : (!accfg.state<"{acc}">) -> !accfg.token<"{acc}">')
+            self.emit(ind + 1, f'"accfg.await"({t2}) : (!accfg.token<"{acc}">) -> ()')
+            self.emit(ind, "}")
 
     def block(self, ind, depth, pool, ivpool, n_items=None):
         n_items = n_items or self.rng.randint(1, 3)
@@ -103,8 +122,10 @@ class Gen:
                 pool = pool + self.for_loop(ind, depth, pool, ivpool)
             elif r < 0.86:
                 pool = pool + self.if_op(ind, depth, pool, ivpool)
-            elif r < 0.96 and self.effects:
+            elif r < 0.93 and self.effects:
                 self.opaque(ind, pool)
+            elif r < 0.965 and self.effects:
+                self.call_only_if(ind, pool)
             else:
                 v = self.fresh()
                 self.emit(ind, f"{v} = arith.addi {self.rng.choice(pool)}, {self.rng.choice(pool)} : i32")
@@ -175,6 +196,23 @@ class Gen:
             self.block(ind + 1, depth + 1, pool, ivpool, self.rng.randint(1, 2))
         self.emit(ind, "}")
         return []
+
+    def call_only_if(self, ind, pool):
+        """an scf.if whose arms contain no accelerator operation, only calls: the accelerator may be reconfigured behind the compiler's
+        back on one path although the conditional produces no new state"""
+        c = self.cond(ind, pool)
+        self.emit(ind, f"scf.if {c} {{")
+        self.emit(ind + 1, "func.call @ext() : () -> ()")
+        self.used_ext.add("ext")
+        r = self.rng.random()
+        if r < 0.3:
+            self.emit(ind, "} else {")
+            self.emit(ind + 1, "func.call @ext_safe() {accfg.effects = #accfg.effects<none>} : () -> ()")
+            self.used_ext.add("ext_safe")
+        elif r < 0.45:
+            self.emit(ind, "} else {")
+            self.emit(ind + 1, f'"test.op"({self.rng.choice(pool)}) : (i32) -> ()')
+        self.emit(ind, "}")
 
     def opaque(self, ind, pool):
         r = self.rng.random()
